@@ -1061,7 +1061,7 @@ func isDataAttribute(val string) bool {
 	if !dataAttribute.MatchString(val) {
 		return false
 	}
-	rest := strings.Split(val, "data-")
+	rest := strings.SplitN(val, "data-", 2)
 	if len(rest) == 1 {
 		return false
 	}
